@@ -25,6 +25,7 @@ RULE = (
     "break on normal exit; after every write the emulator's current line is empty or exactly one frame ' <value> <message>' "
     "of a message that was current; every program is also run on an undecorated output (frames are appended lines) and inside "
     "an indentation scope. Stress engine: real threads with 0.1-0.5 ms yields inside write. Manual mode: all call "
+    "Also (scheduler variants): file-backed stream with a 5000-character message, stream failing on the line-ending write of a raising body; (manual) formats chosen by the component on an I/O whose standard output is of the other kind. "
     "sequences of length <= 6 over {start, advance, set_message, finish} x clock steps {0,50,99,100,250 ms}. non-trivial = "
     "schedule with >= 1 pre-emption or a raising body; distinct by trace hash (thread, label sequence)."
 )
